@@ -32,7 +32,7 @@ NAME_PREFIX = G.Y + 'python/name:'
 
 def bounds(tier, seed):
     q = tier == 'quick'
-    return {'structural_tags': len(G.structural_tags()), 'kinds': len(G.KINDS), 'contexts': len(CONTEXTS), 'entry_points': 4,
+    return {'structural_tags': len(G.structural_tags()), 'kinds': len(G.KINDS), 'contexts': len(CONTEXTS), 'typed_parent_contexts': len(G.TYPED_CONTEXTS), 'entry_points': 4,
             'canary_names': len(G.CANARY_NAMES), 'module_name_slice': 'index % 8 == seed % 8' if q else 'all'}
 
 
@@ -157,7 +157,8 @@ STRUCTURAL_CONSUMED = {'merge': ('seq-empty', 'map-empty', 'map-ab', 'long', 'st
 def check_doc(T, sub, case, doc, tag, kind, ctx, profile, prime=()):
     for fn in prime:          # a more trusting loader reads the same document first (monitors off): non-initial state
         try:
-            fn(doc)
+            with secmon.guard():
+                fn(doc)
         except Exception:
             pass
     cls, name = classify(tag)
@@ -178,7 +179,8 @@ def check_doc(T, sub, case, doc, tag, kind, ctx, profile, prime=()):
         MON.arm(profile)
         try:
             try:
-                res = ('ok', fn(doc))
+                with secmon.guard():
+                    res = ('ok', fn(doc))
             except yaml.YAMLError as e:
                 res = ('yamlerror', type(e).__name__)
             except BaseException as e:
@@ -266,7 +268,7 @@ def run_job(job, T):
     if kind == 'struct':
         tag = G.structural_tags()[job[1]]
         for kn, ktext in G.KINDS:
-            for c in CONTEXTS:
+            for c in CONTEXTS + (G.TYPED_CONTEXTS if kn in G.TYPED_KINDS else []):
                 doc = G.in_context(c, '%s %s' % (tag, ktext))
                 check_doc(T, 'structural', {'doc': doc, 'tag': tag, 'kind': kn, 'context': c}, doc, tag, kn, c, True)
         T.sample('structural', {'doc': doc})
@@ -278,7 +280,7 @@ def run_job(job, T):
                 continue
             tag = G.tag_text(prefix + name)
             for kn, ktext in G.KINDS:
-                for c in (CONTEXTS if name.startswith('vf_canary') else ('root', 'map-key', 'aliased', 'merge', 'set-member', 'nested-py')):
+                for c in (CONTEXTS + (G.TYPED_CONTEXTS if kn in G.TYPED_KINDS[::2] else []) if name.startswith('vf_canary') else ('root', 'map-key', 'aliased', 'merge', 'set-member', 'nested-py')):
                     doc = G.in_context(c, '%s %s' % (tag, ktext))
                     check_doc(T, 'canary-names', {'doc': doc, 'tag': tag, 'kind': kn, 'context': c, 'primed': _is_canary(name)}, doc, tag, kn, c, True, prime=PRIME_UNSAFE if _is_canary(name) else ())
         if doc:
